@@ -120,17 +120,18 @@ static inline RJ D(const RJ& u, int j) {
   for (int k = 0; k < NV; k++) { r.g[k] = u.h[j][k]; r.mg[k] = u.mh[j][k]; }
   return r;
 }
-// value + scale pair extracted from a jet slot
-struct VS { Q v, s; VS() : v(0), s(0) {} VS(Q a, Q b) : v(a), s(b) {} };
+// value + scales extracted from a jet slot: s = running error bound (units of u), t = sum of |term| over the operator-level
+// terms the reference assembles (the "magnitude of the terms of the governing operator" in the words of property C09)
+struct VS { Q v, s, t; VS() : v(0), s(0), t(0) {} VS(Q a, Q b) : v(a), s(b), t(qabs(a)) {} VS(Q a, Q b, Q c) : v(a), s(b), t(c) {} };
 static inline VS val(const RJ& a) { return VS(a.v, a.mv); }
 static inline VS d1(const RJ& a, int i) { return VS(a.g[i], a.mg[i]); }
 static inline VS d2(const RJ& a, int i, int j) { return VS(a.h[i][j], a.mh[i][j]); }
-static inline VS operator+(VS a, VS b) { Q v = a.v + b.v; return VS(v, a.s + b.s + ((a.v == 0 || b.v == 0) ? Q(0) : qabs(v))); }
-static inline VS operator-(VS a, VS b) { Q v = a.v - b.v; return VS(v, a.s + b.s + ((a.v == 0 || b.v == 0) ? Q(0) : qabs(v))); }
-static inline VS operator*(VS a, VS b) { return VS(a.v * b.v, perr(a.v, a.s, b.v, b.s)); }
-static inline VS operator*(Q a, VS b) { return VS(a * b.v, qabs(a) * b.s + qabs(a * b.v)); }
-static inline VS operator/(VS a, Q b) { return VS(a.v / b, a.s / qabs(b) + qabs(a.v / b)); }
-static inline VS operator-(VS a) { return VS(-a.v, a.s); }
+static inline VS operator+(VS a, VS b) { Q v = a.v + b.v; return VS(v, a.s + b.s + ((a.v == 0 || b.v == 0) ? Q(0) : qabs(v)), a.t + b.t); }
+static inline VS operator-(VS a, VS b) { Q v = a.v - b.v; return VS(v, a.s + b.s + ((a.v == 0 || b.v == 0) ? Q(0) : qabs(v)), a.t + b.t); }
+static inline VS operator*(VS a, VS b) { return VS(a.v * b.v, perr(a.v, a.s, b.v, b.s), a.t * b.t); }
+static inline VS operator*(Q a, VS b) { return VS(a * b.v, qabs(a) * b.s + qabs(a * b.v), qabs(a) * b.t); }
+static inline VS operator/(VS a, Q b) { return VS(a.v / b, a.s / qabs(b) + qabs(a.v / b), a.t / qabs(b)); }
+static inline VS operator-(VS a) { return VS(-a.v, a.s, a.t); }
 
 static inline std::string q2s(Q x, int digits = 36) {
   char b[96]; char fmt[16]; snprintf(fmt, sizeof fmt, "%%.%dQe", digits - 1);
